@@ -538,5 +538,12 @@ pub fn gen_sched(seed: u64) -> SchedCfg {
         }
     };
     let spurious_permille = if r.below(100) < 70 { 0 } else { [10, 30, 100][r.below(3) as usize] };
-    SchedCfg { seed, strategy, spurious_permille, max_steps: 20_000, replay: None }
+    // the window between a send's slot reservation and its push (only open on real threads): open it in a
+    // third of the schedules, for some or for all sends
+    let split_permille = match r.below(100) {
+        0..=66 => 0,
+        67..=84 => 300,
+        _ => 1000,
+    };
+    SchedCfg { seed, strategy, spurious_permille, max_steps: 20_000, replay: None, split_permille }
 }
